@@ -61,9 +61,9 @@ func cmdCheck(argv []string) int {
 	if s := os.Getenv("VERIF_SEED"); s != "" {
 		seed, _ = strconv.Atoi(s)
 	}
-	timeout := 20
+	timeout := 40
 	if *tier == "thorough" {
-		timeout = 120
+		timeout = 180
 	}
 	outDir = filepath.Join(outRoot, *prop)
 	os.RemoveAll(outDir)
